@@ -73,6 +73,10 @@ CHECKS = {
             "DESIGN.md 3/C13",
             "Generated (data, options) compressed 2-4 times: different write partitions (LZMA, LZIP, MT writers; LZMA2/XZ without chunk/block size), different heap histories with fresh memory filled with 0xA5 and freed memory with 0x5A, worker counts 1-6, and in the scheduler build 20 seeded schedules per case; all outputs must be byte-identical and MT output must equal the concatenation of the single-threaded encodings of the fixed-size units.",
             "Three builds share the check (checked, release on real threads; scheduler build for schedules); sequentially consistent scheduler."),
+    "C17": ("exploration", "property-based testing with an accounting global allocator as measuring oracle",
+            "DESIGN.md 3/C17",
+            "Generated (dict_size, lc, lp, mode, match finder, nice_len) vectors: the peak heap measured by the harness's accounting allocator while constructing and running LZMA2Writer / LZMAWriter / LZMAReader / LZMA2Reader must be <= the estimator's figure, and the figure <= 3 x peak + 512 KiB; LZMAReader::new_mem_limit must refuse with OutOfMemory iff limit < need, before allocating 64 KiB; estimator-only evaluation up to 768 MiB against the harness's closed form of the allocations.",
+            "Release build; dictionaries above 16 MiB (quick) / 128 MiB (thorough) are only evaluated through the closed form."),
 }
 
 NOT_YET = {
